@@ -27,6 +27,7 @@ func ParseFile(filename string) (interface{}, error) {
 	}
 	// Invoke the root rule 'Packet' to parse the file
 	tree := parser.Packet()
+	listener.ExpectEndOfInput(parser)
 	if listener.HasErrors() {
 		return nil, fmt.Errorf("syntax errors found: %v", listener.Errors)
 	}
